@@ -5,13 +5,22 @@ import json
 import os
 
 HERE = os.path.dirname(os.path.dirname(os.path.abspath(__file__)))
-print('| change | what it does | what an input needs | suite | caught by (quick tier, seed 1) |')
+print('| change | what it does | what an input needs | suite | caught by (quick tier, seed 1, final machinery) |')
 print('|---|---|---|---|---|')
 for p in sorted(glob.glob(os.path.join(HERE, 'seeded', '*', 'meta.json'))):
     m = json.load(open(p))
     d = os.path.basename(os.path.dirname(p))
-    sigs = m.get('check_signatures') or []
-    caught = ('`%s`' % sigs[0][:90] + (' (+%d more)' % (len(sigs) - 1) if len(sigs) > 1 else '')) if m.get('detected_by_quick_check') else '**missed**'
+    # the last run against the final machinery (tools/reeval_all.py) wins over the run at evaluation time
+    if m.get('recheck_applies'):
+        sigs = m.get('recheck_signatures') or []
+        detected = m.get('recheck_detected')
+    else:
+        sigs = m.get('check_signatures') or []
+        detected = m.get('detected_by_quick_check')
+    if m.get('status_note') and not detected:
+        caught = 'n/a'
+    else:
+        caught = ('`%s`' % sigs[0][:90] + (' (+%d more)' % (len(sigs) - 1) if len(sigs) > 1 else '')) if detected else '**missed**'
     note = (' — ' + m['note']) if m.get('note') else ''
     print('| %s | %s | %s | %s | %s%s |' % (d, m.get('change', '').replace('|', '\\|'), m.get('needs', '').replace('|', '\\|'),
                                           'passes' if m.get('suite_passes_with_patch') else '?', caught.replace('|', '\\|'), note.replace('|', '\\|')))
